@@ -136,6 +136,12 @@ type World struct {
 	cur      ssa.Instruction      // instruction being interpreted (positions of opaque symbols)
 	small    [2*smallMax + 1]*Int // shared concrete words of small absolute value
 
+	// Asm: body-less functions of this package are interpreted from their
+	// assembly text (asm.go); OnAsmBackEdge is invoked when such a function
+	// takes a backward jump (loop summarisation by the drivers).
+	Asm           *AsmSet
+	OnAsmBackEdge func(st *asmState)
+
 	// hooks (spec-driven)
 	OnCall func(c *CallCtx) (ret Value, handled bool)
 	// AfterCall is invoked after an inlined call returned.
